@@ -6,28 +6,28 @@ Open Scope Z_scope.
 
 (* ---------------------------------------------------------------- rows *)
 
-Lemma set_row_length r i xl xr a : length (set_row r i xl xr a) = length r.
+Lemma set_row_length r i xl xr f : length (set_row r i xl xr f) = length r.
 Proof. revert i; induction r as [|c t IH]; intro i; simpl; [reflexivity | now rewrite IH]. Qed.
 
-Lemma nth_set_row r : forall i xl xr a k d, (k < length r)%nat ->
-  nth k (set_row r i xl xr a) d =
-  if (xl <=? i + Z.of_nat k) && (i + Z.of_nat k <=? xr) then a else nth k r d.
+Lemma nth_set_row r : forall i xl xr f k d, (k < length r)%nat ->
+  nth k (set_row r i xl xr f) d =
+  if (xl <=? i + Z.of_nat k) && (i + Z.of_nat k <=? xr) then f (i + Z.of_nat k) else nth k r d.
 Proof.
-  induction r as [|c t IH]; intros i xl xr a k d Hk; simpl in Hk; [lia|].
+  induction r as [|c t IH]; intros i xl xr f k d Hk; simpl in Hk; [lia|].
   destruct k as [|k].
   - cbn [set_row nth]. replace (i + Z.of_nat 0) with i by lia. reflexivity.
   - cbn [set_row nth]. rewrite IH by lia.
     replace (i + 1 + Z.of_nat k) with (i + Z.of_nat (S k)) by lia. reflexivity.
 Qed.
 
-Lemma set_rows_length rs j ox y xl xr a : length (set_rows rs j ox y xl xr a) = length rs.
+Lemma set_rows_length rs j ox y xl xr f : length (set_rows rs j ox y xl xr f) = length rs.
 Proof. revert j; induction rs as [|r t IH]; intro j; simpl; [reflexivity | now rewrite IH]. Qed.
 
-Lemma nth_set_rows rs : forall j ox y xl xr a k,
-  nth k (set_rows rs j ox y xl xr a) [] =
-  if j + Z.of_nat k =? y then set_row (nth k rs []) ox xl xr a else nth k rs [].
+Lemma nth_set_rows rs : forall j ox y xl xr f k,
+  nth k (set_rows rs j ox y xl xr f) [] =
+  if j + Z.of_nat k =? y then set_row (nth k rs []) ox xl xr f else nth k rs [].
 Proof.
-  induction rs as [|r t IH]; intros j ox y xl xr a k.
+  induction rs as [|r t IH]; intros j ox y xl xr f k.
   - cbn [set_rows]. destruct k; cbn [nth set_row]; destruct (_ =? _); reflexivity.
   - destruct k as [|k].
     + cbn [set_rows nth]. replace (j + Z.of_nat 0) with j by lia. reflexivity.
@@ -37,16 +37,16 @@ Qed.
 
 (* ---------------------------------------------------------------- bitmap *)
 
-Lemma inb_fill_range m y xl xr a x' y' : inb (fill_range m y xl xr a) x' y' = inb m x' y'.
+Lemma inb_fill_range m y xl xr f x' y' : inb (tile_range m y xl xr f) x' y' = inb m x' y'.
 Proof.
-  unfold inb, fill_range, zlen; cbn [org_x org_y rows].
+  unfold inb, tile_range, zlen; cbn [org_x org_y rows].
   rewrite set_rows_length, nth_set_rows.
   destruct (org_y m + Z.of_nat (Z.to_nat (y' - org_y m)) =? y); [rewrite set_row_length|]; reflexivity.
 Qed.
 
-Lemma pix_fill_range m y xl xr a x' y' :
-  pix (fill_range m y xl xr a) x' y' =
-  if inb m x' y' && (y' =? y) && (xl <=? x') && (x' <=? xr) then a else pix m x' y'.
+Lemma pix_fill_range m y xl xr f x' y' :
+  pix (tile_range m y xl xr f) x' y' =
+  if inb m x' y' && (y' =? y) && (xl <=? x') && (x' <=? xr) then f x' else pix m x' y'.
 Proof.
   unfold pix. rewrite inb_fill_range.
   destruct (inb m x' y') eqn:Hin; [|reflexivity].
@@ -55,7 +55,7 @@ Proof.
   apply andb_true_iff in Hin as [Hin H4]. apply andb_true_iff in Hin as [Hin H3].
   apply andb_true_iff in Hin as [H1 H2].
   apply Z.leb_le in H1, H2. apply Z.ltb_lt in H3, H4.
-  unfold fill_range; cbn [org_x org_y rows].
+  unfold tile_range; cbn [org_x org_y rows].
   rewrite nth_set_rows.
   replace (org_y m + Z.of_nat (Z.to_nat (y' - org_y m))) with y' by lia.
   destruct (y' =? y) eqn:Hy; [|reflexivity].
@@ -65,7 +65,7 @@ Proof.
   reflexivity.
 Qed.
 
-Lemma covers_fill_range m v y xl xr a : covers m v -> covers (fill_range m y xl xr a) v.
+Lemma covers_fill_range m v y xl xr f : covers m v -> covers (tile_range m y xl xr f) v.
 Proof. intros H x' y' Hv. rewrite inb_fill_range. now apply H. Qed.
 
 Lemma in_view_iff v x y :
@@ -157,10 +157,10 @@ Proof.
     + intros Hlt. replace (xe + w + 1) with (xe + 1 + w) by lia. apply Hstop. lia.
 Qed.
 
-Lemma all_eq_spec m a y : forall n x,
-  all_eq m a y x n = true <-> (forall i, 0 <= i < Z.of_nat n -> pix m (x + i) y = a).
+Lemma same_tile_spec m p y : forall n x,
+  same_tile m p y x n = true <-> (forall i, 0 <= i < Z.of_nat n -> pix m (x + i) y = tile_at p (x + i) y).
 Proof.
-  induction n as [|n IH]; intro x; cbn [all_eq].
+  induction n as [|n IH]; intro x; cbn [same_tile].
   - split; [intros _ i Hi; lia | reflexivity].
   - rewrite andb_true_iff, Z.eqb_eq, IH. split.
     + intros [H0 Hr] i Hi. destruct (Z.eq_dec i 0) as [->|Hi0]; [now rewrite Z.add_0_r|].
@@ -170,15 +170,33 @@ Proof.
       * intros i Hi. replace (x + 1 + i) with (x + (i + 1)) by lia. apply H. lia.
 Qed.
 
+(* has_same_pattern implies that the run shows the tile *)
+Lemma has_same_tile m p y x w : has_same m p y x w = true -> same_tile m p y x (Z.to_nat w) = true.
+Proof.
+  unfold has_same. intro H. apply andb_true_iff in H as [H _]. now apply andb_true_iff in H as [_ H].
+Qed.
+
+(* the tiles for which "the run shows the tile" is the whole stop condition: solid fills, and tiles without
+   all-zero rows used without a background pattern *)
+Definition stops_on_tile (p : pat) : Prop :=
+  forall m y x w, same_tile m p y x (Z.to_nat w) = true -> has_same m p y x w = true.
+
+Lemma stops_on_tile_solid p : p_solid p = true -> p_bg p = None -> stops_on_tile p.
+Proof. intros Hs Hb m y x w H. unfold has_same. now rewrite Hs, H, Hb. Qed.
+
+Lemma stops_on_tile_nonzero p :
+  (forall y, row_nonzero (tile_row p y) = true) -> p_bg p = None -> stops_on_tile p.
+Proof. intros Hn Hb m y x w H. unfold has_same. now rewrite Hn, H, Hb, orb_true_r. Qed.
+
 (* ---------------------------------------------------------------- _check_scanline *)
 
 (* cell (x,y) lies in an interval of the list *)
 Definition covered (l : list seedt) (x y : Z) : Prop :=
   exists xs xe d, In (xs, xe, y, d) l /\ xs <= x <= xe.
 
-(* a cell the scan does not enter: border, or already in the fill attribute *)
-Definition closed (m : bitmap) (fill border x y : Z) : Prop :=
-  pix m x y = border \/ pix m x y = fill.
+(* a cell the scan does not enter: border, or already showing the tile *)
+Definition closed (m : bitmap) (p : pat) (border x y : Z) : Prop :=
+  pix m x y = border \/ pix m x y = tile_at p x y.
 
 Lemma covered_app l1 l2 x y : covered (l1 ++ l2) x y <-> covered l1 x y \/ covered l2 x y.
 Proof.
@@ -192,18 +210,18 @@ Lemma covered_nil x y : ~ covered [] x y.
 Proof. intros (xs & xe & d & Hin & _). destruct Hin. Qed.
 
 (* what one call of _check_scanline on row y over [x, xstop] pushes *)
-Record pushed_ok (m : bitmap) (fill border y d x xstop : Z) (news : list seedt) : Prop := {
+Record pushed_ok (m : bitmap) (p : pat) (border y d x xstop : Z) (news : list seedt) : Prop := {
   po_each : forall e, In e news -> exists a b, e = (a, b, y, d) /\ x <= a /\ a <= b /\ b <= xstop /\
               (forall i, a <= i <= b -> pix m i y <> border) /\
-              (exists i, a <= i <= b /\ pix m i y <> fill);
-  po_all : forall i, x <= i <= xstop -> closed m fill border i y \/ covered news i y;
+              has_same m p y a (b - a + 1) = false;
+  po_all : forall i, x <= i <= xstop -> closed m p border i y \/ covered news i y;
   po_count : Z.of_nat (length news) <= Z.max 0 (xstop - x + 1)
 }.
 
-Lemma check_loop_spec m fill border y d xstop : forall fuel x wl,
+Lemma check_loop_spec m p border y d xstop : forall fuel x wl,
   Z.max 1 (xstop - x + 2) <= Z.of_nat fuel ->
-  exists news, check_loop fuel m fill border y d x xstop wl = Some (news ++ wl) /\
-               pushed_ok m fill border y d x xstop news.
+  exists news, check_loop fuel m p border y d x xstop wl = Some (news ++ wl) /\
+               pushed_ok m p border y d x xstop news.
 Proof.
   induction fuel as [|f IH]; intros x wl Hfuel; [lia|].
   cbn [check_loop].
@@ -217,7 +235,7 @@ Proof.
   pose proof (scan_r_spec m border y (Z.to_nat (xstop + 1 - x)) x) as Hs. cbv zeta in Hs.
   set (w := scan_r m border y x (Z.to_nat (xstop + 1 - x))) in *.
   destruct Hs as (Hr & Hne & Hstop). rewrite Z2Nat.id in Hr, Hstop by lia.
-  set (push := (0 <? w) && negb (all_eq m fill y x (Z.to_nat w))).
+  set (push := (0 <? w) && negb (has_same m p y x w)).
   destruct (IH (x + w + 1) (if push then (x, x + w - 1, y, d) :: wl else wl)) as (news' & Heq & Hok);
     [lia|].
   destruct Hok as [Heach Hall Hcount].
@@ -225,18 +243,6 @@ Proof.
   - (* the run [x, x+w-1] is pushed *)
     unfold push in Hpush. apply andb_true_iff in Hpush as [Hw Hnf]. apply Z.ltb_lt in Hw.
     apply negb_true_iff in Hnf.
-    assert (Hex : exists i, x <= i <= x + w - 1 /\ pix m i y <> fill).
-    { destruct (all_eq m fill y x (Z.to_nat w)) eqn:Ha; [discriminate|].
-      (* search the run for a cell different from fill *)
-      clear - Ha Hw.
-      assert (G : forall n x0, all_eq m fill y x0 n = false ->
-                  exists i, 0 <= i < Z.of_nat n /\ pix m (x0 + i) y <> fill).
-      { induction n as [|n IHn]; intros x0 H; cbn [all_eq] in H; [discriminate|].
-        destruct (pix m x0 y =? fill) eqn:E.
-        - cbn [andb] in H. destruct (IHn _ H) as (i & Hi & Hp). exists (i + 1). split; [lia|].
-          now replace (x0 + (i + 1)) with (x0 + 1 + i) by lia.
-        - apply Z.eqb_neq in E. exists 0. split; [lia|]. now rewrite Z.add_0_r. }
-      destruct (G _ _ Ha) as (i & Hi & Hp). exists (x + i). split; [lia|exact Hp]. }
     exists (news' ++ [(x, x + w - 1, y, d)]). split.
     { rewrite Heq. now rewrite <- app_assoc. }
     constructor.
@@ -244,7 +250,8 @@ Proof.
       * destruct (Heach e He) as (a & b & -> & Ha1 & Ha2 & Ha3 & Ha4 & Ha5).
         exists a, b. repeat split; try lia; auto.
       * destruct He as [<-|[]]. exists x, (x + w - 1). repeat split; try lia; auto.
-        intros i Hi. replace i with (x + (i - x)) by lia. apply Hne. lia.
+        -- intros i Hi. replace i with (x + (i - x)) by lia. apply Hne. lia.
+        -- now replace (x + w - 1 - x + 1) with w by lia.
     + intros i Hi.
       destruct (Z_le_gt_dec i (x + w - 1)) as [Hle|Hgt].
       * right. apply covered_app. right. exists x, (x + w - 1), d. split; [left; reflexivity|lia].
@@ -252,7 +259,7 @@ Proof.
         -- left. left. apply Hstop. lia.
         -- destruct (Hall i) as [Hc|Hc]; [lia|now left|]. right. apply covered_app. now left.
     + rewrite app_length. simpl. lia.
-  - (* nothing pushed: empty run, or a run entirely in the fill attribute *)
+  - (* nothing pushed: empty run, or a run that has_same_pattern *)
     exists news'. split; [exact Heq|].
     constructor.
     + intros e He. destruct (Heach e He) as (a & b & -> & Ha1 & Ha2 & Ha3 & Ha4 & Ha5).
@@ -261,7 +268,7 @@ Proof.
       destruct (Z_le_gt_dec i (x + w - 1)) as [Hle|Hgt].
       * left. right.
         unfold push in Hpush. apply andb_false_iff in Hpush as [Hw|Hnf]; [apply Z.ltb_ge in Hw; lia|].
-        apply negb_false_iff in Hnf. rewrite all_eq_spec in Hnf.
+        apply negb_false_iff in Hnf. apply has_same_tile in Hnf. rewrite same_tile_spec in Hnf.
         replace i with (x + (i - x)) by lia. apply Hnf. lia.
       * destruct (Z.eq_dec i (x + w)) as [->|Hne2].
         -- left. left. apply Hstop. lia.
@@ -269,26 +276,55 @@ Proof.
     + lia.
 Qed.
 
-Lemma pushed_ok_empty m fill border y d x xstop : xstop < x -> pushed_ok m fill border y d x xstop [].
+Lemma pushed_ok_empty m p border y d x xstop : xstop < x -> pushed_ok m p border y d x xstop [].
 Proof. intro H. constructor; [intros e []| intros i Hi; lia | simpl; lia]. Qed.
 
-Lemma check_scanline_spec wl m fill border xstart xstop y d :
-  exists news, check_scanline wl m fill border xstart xstop y d = Some (news ++ wl) /\
-               pushed_ok m fill border y d xstart xstop news.
+Lemma check_scanline_spec wl m p border xstart xstop y d :
+  exists news, check_scanline wl m p border xstart xstop y d = Some (news ++ wl) /\
+               pushed_ok m p border y d xstart xstop news.
 Proof.
   unfold check_scanline. destruct (xstop <? xstart) eqn:E.
   - apply Z.ltb_lt in E. exists []. split; [reflexivity|]. now apply pushed_ok_empty.
   - apply Z.ltb_ge in E. apply check_loop_spec. lia.
 Qed.
 
-(* if every scanned cell is closed, nothing is pushed *)
-Lemma pushed_ok_closed m fill border y d x xstop news :
-  pushed_ok m fill border y d x xstop news ->
-  (forall i, x <= i <= xstop -> closed m fill border i y) -> news = [].
+(* a pushed interval contains a cell that does not show the tile, when that is the whole stop condition *)
+Lemma not_same_cell m p y a b : stops_on_tile p -> a <= b ->
+  has_same m p y a (b - a + 1) = false -> exists i, a <= i <= b /\ pix m i y <> tile_at p i y.
 Proof.
-  intros [Heach _ _] Hcl. destruct news as [|e t]; [reflexivity|exfalso].
-  destruct (Heach e (or_introl eq_refl)) as (a & b & _ & Ha1 & Ha2 & Ha3 & Hnb & (i & Hi & Hnf)).
-  destruct (Hcl i ltac:(lia)) as [Hc|Hc]; [apply (Hnb i Hi Hc) | apply (Hnf Hc)].
+  intros Hst Hab Hf.
+  destruct (same_tile m p y a (Z.to_nat (b - a + 1))) eqn:Ha.
+  { rewrite (Hst _ _ _ _ Ha) in Hf. discriminate. }
+  assert (G : forall n x0, same_tile m p y x0 n = false ->
+              exists i, 0 <= i < Z.of_nat n /\ pix m (x0 + i) y <> tile_at p (x0 + i) y).
+  { induction n as [|n IHn]; intros x0 H; cbn [same_tile] in H; [discriminate|].
+    destruct (pix m x0 y =? tile_at p x0 y) eqn:E.
+    - cbn [andb] in H. destruct (IHn _ H) as (i & Hi & Hp). exists (i + 1). split; [lia|].
+      now replace (x0 + (i + 1)) with (x0 + 1 + i) by lia.
+    - apply Z.eqb_neq in E. exists 0. split; [lia|]. now rewrite Z.add_0_r. }
+  destruct (G _ _ Ha) as (i & Hi & Hp). exists (a + i). split; [lia|exact Hp].
+Qed.
+
+(* if every scanned cell is closed, nothing is pushed *)
+Lemma pushed_ok_closed m p border y d x xstop news : stops_on_tile p ->
+  pushed_ok m p border y d x xstop news ->
+  (forall i, x <= i <= xstop -> closed m p border i y) -> news = [].
+Proof.
+  intros Hst [Heach _ _] Hcl. destruct news as [|e t]; [reflexivity|exfalso].
+  destruct (Heach e (or_introl eq_refl)) as (a & b & _ & Ha1 & Ha2 & Ha3 & Hnb & Hnf).
+  destruct (not_same_cell m p y a b Hst Ha2 Hnf) as (i & Hi & Hne).
+  destruct (Hcl i ltac:(lia)) as [Hc|Hc]; [apply (Hnb i Hi Hc) | apply (Hne Hc)].
+Qed.
+
+(* the solid pattern writes the fill attribute everywhere *)
+Lemma tile_at_solid fill x y : tile_at (solid_pat fill) x y = fill.
+Proof.
+  unfold tile_at, tile_row, tile_h, tile_w, solid_pat, zlen. cbn [p_tile length nth].
+  rewrite Z.mod_1_r. cbn [Z.to_nat nth].
+  assert (H : In (nth (Z.to_nat (x mod Z.of_nat (length (repeat fill 8)))) (repeat fill 8) 0) (repeat fill 8)).
+  { apply nth_In. rewrite repeat_length. pose proof (Z.mod_pos_bound x 8 ltac:(lia)).
+    change (Z.of_nat 8) with 8. lia. }
+  now apply repeat_spec in H.
 Qed.
 
 (* a pixel value is -1 (off the bitmap) or one of the stored values *)
